@@ -109,10 +109,17 @@ func wipe(st storage.StateStorer) error {
 	return nil
 }
 
+// WrapChequeStore, when set, wraps the real cheque store of every node built afterwards (used to
+// own the schedule between the store's acceptance of a cheque and the service's bookkeeping).
+var WrapChequeStore func(chequePkg.ChequeStore) chequePkg.ChequeStore
+
 // NewNode builds the service on store/chain and runs Init, as node start-up does.
 func NewNode(key *ecdsa.PrivateKey, store storage.StateStorer, ch *Chain) (*Node, error) {
 	n := &Node{Key: key, Me: Addr(key), Store: store, Chain: ch, Cashout: &Cashout{Status: 1}, Proto: &Proto{}, P2P: &P2P{}, Sub: NewSubPub()}
 	n.ChequeStore = chequePkg.NewChequeStore(store, n.Me, chequePkg.RecoverCheque, ChainID)
+	if WrapChequeStore != nil {
+		n.ChequeStore = WrapChequeStore(n.ChequeStore)
+	}
 	n.Book = traffic.NewAddressBook(store)
 	signer := chequePkg.NewChequeSigner(crypto.NewDefaultSigner(key), ChainID)
 	n.Svc = traffic.New(Logger(), n.Me, store, ch, n.ChequeStore, n.Cashout, n.P2P, n.Book, signer, n.Proto, ChainID, n.Sub)
